@@ -12,6 +12,7 @@ import (
 	"fmt"
 	"reflect"
 	"sort"
+	"strings"
 
 	"github.com/hneemann/parser2/funcGen"
 	"github.com/hneemann/parser2/value"
@@ -101,7 +102,7 @@ func (h *hist) mapHandles() []*handle {
 
 func (h *hist) mapStep() {
 	ms := h.mapHandles()
-	op := h.r.IntN(11)
+	op := h.r.IntN(12)
 	if len(ms) == 0 {
 		op = 0
 	}
@@ -153,8 +154,26 @@ func (h *hist) mapStep() {
 		h.derive("map", ref.Method(h0, "map", ref.Clo([]string{"k", "v"}, ref.Bin("+", ref.Id("k"), ref.Static("string", ref.Id("v"))))), pick())
 	case 9:
 		h.derive("accept", ref.Method(h0, "accept", ref.Clo([]string{"k", "v"}, ref.Bin("!=", ref.Id("k"), ref.Str(h.key())))), pick())
-	default:
+	case 10:
 		h.derive("combine", ref.Method(h0, "combine", ref.Id("h1"), ref.Clo([]string{"x", "y"}, ref.ListN(ref.Id("x"), ref.Id("y")))), pick(), pick())
+	default:
+		// branching: two or three derivations from ONE parent (preferably one made by + / accept / put, whose
+		// storage may have room to spare), each adding other keys: they must not see each other's entries
+		p := pick()
+		for tries := 0; tries < 4 && !(strings.HasPrefix(p.how, "+") || p.how == "accept" || p.how == "put"); tries++ {
+			p = pick()
+		}
+		for k := 0; k < 2+h.r.IntN(2) && !h.failed; k++ {
+			nk := fmt.Sprintf("br%d_%d", len(h.hs), k)
+			switch h.r.IntN(3) {
+			case 0:
+				h.derive("+branch", ref.Bin("+", h0, ref.MapN([]string{nk}, []*ref.Node{h.scalar()})), p)
+			case 1:
+				h.derive("put-branch", ref.Method(h0, "put", ref.Str(nk), h.scalar()), p)
+			default:
+				h.derive("+branch2", ref.Bin("+", h0, ref.MapN([]string{nk, nk + "x"}, []*ref.Node{h.scalar(), h.scalar()})), p)
+			}
+		}
 	}
 }
 
@@ -236,9 +255,37 @@ func (h *hist) observeMap(i int) bool {
 				h.violation("observer:json-export", fmt.Sprintf("handle h%d: JSON export does not decode: %v", i, e))
 				return false
 			}
+			// the keys as written (token stream): a key exported twice must show
 			var got, want []string
-			for k := range dec {
-				got = append(got, k)
+			td := json.NewDecoder(bytes.NewReader(ex.Result()))
+			depth := 0
+			expectKey := false
+			for {
+				tok, e := td.Token()
+				if e != nil {
+					break
+				}
+				switch t := tok.(type) {
+				case json.Delim:
+					if t == '{' || t == '[' {
+						depth++
+						expectKey = t == '{' && depth == 1
+					} else {
+						depth--
+						expectKey = depth == 1
+					}
+				case string:
+					if depth == 1 && expectKey {
+						got = append(got, t)
+						expectKey = false
+					} else if depth == 1 {
+						expectKey = true
+					}
+				default:
+					if depth == 1 {
+						expectKey = true
+					}
+				}
 			}
 			want = append(want, m.Keys...)
 			sort.Strings(got)
